@@ -616,6 +616,66 @@ class Fn:
                         res["false"] = (b, other)
         return res
 
+    def cmp_switches(self):
+        """Comparisons whose boolean result is branched on:
+        dicts {op, a, b, stmt, bb (switch block), t (true target), f (false target), eq, ne}."""
+        out = []
+        for s in self.stmts():
+            if s.rv_kind() == "bin" and s.rv[1] in ("Eq", "Ne", "Lt", "Le", "Gt", "Ge") and s.place is not None and not s.place.proj:
+                al = self.forward_aliases(s.place.local, through_calls=("ops::Not::not",)) if False else {s.place.local}
+                for b in range(self.nblocks):
+                    sw = self.switch_on(b)
+                    if not sw:
+                        continue
+                    op, arms, other = sw
+                    if op.place is not None and op.place.local in al and not op.place.proj:
+                        f = arms.get(0, None)
+                        t = other if 0 in arms else arms.get(1)
+                        if f is None:
+                            f = other
+                        d = {"op": s.rv[1], "a": Operand(s.rv[2]), "b": Operand(s.rv[3]), "stmt": s, "bb": b, "t": t, "f": f}
+                        if s.rv[1] == "Eq":
+                            d["eq"], d["ne"] = t, f
+                        elif s.rv[1] == "Ne":
+                            d["eq"], d["ne"] = f, t
+                        out.append(d)
+        # PartialEq::eq / ne calls
+        for c in self.calls:
+            if c.is_("cmp::PartialEq::eq", "cmp::PartialEq::ne") and c.dest is not None:
+                oe = self.outcome_edges(c, passthrough=("ops::Not::not",))
+                if "true" in oe:
+                    d = {"op": "Eq" if c.name == "eq" else "Ne", "a": c.args[0], "b": c.args[1], "stmt": None, "call": c,
+                         "bb": oe["true"][0], "t": oe["true"][1], "f": oe["false"][1]}
+                    if c.name == "eq":
+                        d["eq"], d["ne"] = d["t"], d["f"]
+                    else:
+                        d["eq"], d["ne"] = d["f"], d["t"]
+                    out.append(d)
+        return out
+
+    def derives_from_field(self, operand, field, max_depth=12):
+        """Does the operand's value derive (through copies/refs/calls) from a place with this field name?"""
+        if operand is None or operand.place is None:
+            return False
+        if field in operand.place.fields():
+            return True
+        locs, sites = self.backward_sources(operand.place.local, max_depth=max_depth, through_calls="*")
+        for k, d in sites:
+            if k == "stmt":
+                for p in d.src_places():
+                    if field in p.fields():
+                        return True
+            else:
+                for a in d.args:
+                    if a.place is not None and field in a.place.fields():
+                        return True
+        return False
+
+    def field_stores(self, field):
+        """Statements that write a place whose last field is `field` (e.g. `(*self).state = ..`)."""
+        return [s for s in self.stmts() if s.place is not None and s.place.proj and s.place.last_field() == field
+                and s.place.proj[-1][0] == "f"]
+
     def closures_in_args(self, call, F):
         """Closure bodies passed (by value) to this call."""
         out = []
